@@ -77,7 +77,9 @@ def gen_batch(r, bi, services=False, can=False, n_random=(6, 9), out_of_order=Tr
         ids = r.sample(range(0, 24), r.randint(1, 5))
         if not out_of_order:
             ids = sorted(ids)
-        fields = [("f%d" % j, fid, shapes.rand_type(r, enums, structs, 0, 3, True)) for j, fid in enumerate(ids)]
+        # (the 65 k element struct is not offered as a building block: nested in containers it makes single
+        # commands of several megabytes)
+        fields = [("f%d" % j, fid, shapes.rand_type(r, enums, [x for x in structs if x != p + "Long"], 0, 3, True)) for j, fid in enumerate(ids)]
         add(n, fields)
     can_bindings = []
     if can:
